@@ -1,8 +1,931 @@
+/-
+  C17 — A commandable value equals its highest-priority command or the default.
+
+  Property text → formal statement (model: `Model/Commandable.lean`)
+  * "after any sequence of writes and relinquishes at priorities 1..16 … the
+    present value equals the value in the lowest-numbered non-null slot of the
+    priority array, or the relinquish default when all sixteen are null"
+        → `present_is_winner` (any event list: commands, refused commands, array
+          index writes, timer ticks) with `winner_lowest` / `winner_default`
+          saying what `winner` is; `present_is_winner_init` from a fresh object
+  * "(a write without priority counting as 16)"            → `no_priority_is_16`
+  * "each slot holds exactly the last value commanded at that priority"
+        → `slot_holds_last` (every slot but 6 for any object), `slot_holds_last_all`
+          (all sixteen, objects without the min on/off mix-in), and the refinement
+          to the abstract map priority ↦ last command: `refines_abstract`,
+          `refines_abstract_minonoff`
+  * "Writes with a priority outside 1..16 or to slot 0 are refused without
+    changing anything"  → `bad_priority_refused`, `slot_zero_refused`,
+          `bad_index_refused`, `whole_array_refused`, `bad_value_refused`, all
+          instances of `refused_unchanged`
+  * "binary objects with minimum on/off times hold a new active state at priority
+    6 for the minimum on time, a new inactive state for the minimum off time, and
+    release the slot afterwards"
+        → `hold_starts` (slot 6 := new state, timer armed at now + minimum time),
+          `hold_persists` (timed invariant over any event sequence that stays
+          below priority 6 and before the deadline), `min_on_hold` /
+          `min_off_hold` (the two combined), `hold_released` (what the timer does)
+  * the re-entrant `WriteProperty(…, priority=6)` never nests deeper than once:
+        `wp_fuel_irrelevant` (so the `recursion` answer of the fuel-0 case is unreachable
+        from `step`, which starts with depth 8)
+  * the generated class table (20 classes, priority-value choice, MinOnOff on the
+    binary ones, MRO override)                              → `table_*` (kernel `decide`)
+-/
 import BacVerif.Model.Commandable
 import BacVerif.Gen.Commandable
 namespace BacVerif.C17
 open BacVerif.Commandable
 
-theorem placeholder : True := trivial
+set_option linter.unusedSectionVars false
+
+variable {V : Type} [DecidableEq V]
+
+/-! ## slots and the winner -/
+
+@[simp] theorem setSlot_same (f : Nat → Option V) (i : Nat) (x : Option V) :
+    setSlot f i x i = x := by simp [setSlot]
+
+@[simp] theorem setSlot_other (f : Nat → Option V) {i j : Nat} (x : Option V) (h : j ≠ i) :
+    setSlot f i x j = f j := by simp [setSlot, h]
+
+theorem firstFrom_congr {f g : Nat → Option V} (n i : Nat)
+    (h : ∀ j, i ≤ j → j < i + n → f j = g j) : firstFrom f n i = firstFrom g n i := by
+  induction n generalizing i with
+  | zero => rfl
+  | succ n ih =>
+    simp only [firstFrom]
+    rw [h i (Nat.le_refl i) (by omega)]
+    cases g i with
+    | some v => rfl
+    | none => exact ih (i + 1) (fun j h1 h2 => h j (by omega) (by omega))
+
+theorem firstFrom_append (f : Nat → Option V) (a b i : Nat) :
+    firstFrom f (a + b) i =
+      match firstFrom f a i with
+      | some v => some v
+      | none => firstFrom f b (i + a) := by
+  induction a generalizing i with
+  | zero => simp [firstFrom]
+  | succ a ih =>
+    have : a + 1 + b = (a + b) + 1 := by omega
+    rw [this]
+    simp only [firstFrom]
+    cases f i with
+    | some v => rfl
+    | none =>
+      simp only []
+      rw [ih (i + 1)]
+      have : i + 1 + a = i + (a + 1) := by omega
+      rw [this]
+
+theorem firstFrom_none_iff (f : Nat → Option V) (n i : Nat) :
+    firstFrom f n i = none ↔ ∀ j, i ≤ j → j < i + n → f j = none := by
+  induction n generalizing i with
+  | zero => simp [firstFrom]; intro j h1 h2; omega
+  | succ n ih =>
+    simp only [firstFrom]
+    constructor
+    · intro h j h1 h2
+      cases hfi : f i with
+      | some v => simp [hfi] at h
+      | none =>
+        simp [hfi] at h
+        by_cases hj : j = i
+        · rw [hj]; exact hfi
+        · exact (ih (i + 1)).1 h j (by omega) (by omega)
+    · intro h
+      have hfi := h i (Nat.le_refl i) (by omega)
+      simp [hfi]
+      exact (ih (i + 1)).2 (fun j h1 h2 => h j (by omega) (by omega))
+
+theorem firstFrom_some_iff (f : Nat → Option V) (n i : Nat) (v : V) :
+    firstFrom f n i = some v ↔
+      ∃ j, i ≤ j ∧ j < i + n ∧ f j = some v ∧ ∀ k, i ≤ k → k < j → f k = none := by
+  induction n generalizing i with
+  | zero => simp [firstFrom]; intro j h1 h2; omega
+  | succ n ih =>
+    simp only [firstFrom]
+    cases hfi : f i with
+    | some u =>
+      simp only []
+      constructor
+      · intro h
+        refine ⟨i, Nat.le_refl i, by omega, ?_, fun k h1 h2 => by omega⟩
+        rw [hfi, h]
+      · rintro ⟨j, h1, h2, h3, h4⟩
+        by_cases hj : j = i
+        · rw [hj, hfi] at h3; exact h3
+        · have := h4 i (Nat.le_refl i) (by omega)
+          rw [hfi] at this; cases this
+    | none =>
+      simp only []
+      rw [ih (i + 1)]
+      constructor
+      · rintro ⟨j, h1, h2, h3, h4⟩
+        refine ⟨j, by omega, by omega, h3, fun k hk1 hk2 => ?_⟩
+        by_cases hk : k = i
+        · rw [hk]; exact hfi
+        · exact h4 k (by omega) hk2
+      · rintro ⟨j, h1, h2, h3, h4⟩
+        have hj : j ≠ i := by
+          intro hj; rw [hj, hfi] at h3; cases h3
+        exact ⟨j, by omega, by omega, h3, fun k hk1 hk2 => h4 k (by omega) hk2⟩
+
+/-- "the value in the lowest-numbered non-null slot of the priority array" -/
+theorem winner_lowest (cfg : Cfg V) (f : Nat → Option V) (j : Nat) (v : V)
+    (h1 : 1 ≤ j) (h16 : j ≤ 16) (hj : f j = some v)
+    (hlow : ∀ k, 1 ≤ k → k < j → f k = none) : winner cfg f = v := by
+  have : firstFrom f 16 1 = some v :=
+    (firstFrom_some_iff f 16 1 v).2 ⟨j, h1, by omega, hj, hlow⟩
+  simp [winner, this]
+
+/-- "or the relinquish default when all sixteen are null" -/
+theorem winner_default (cfg : Cfg V) (f : Nat → Option V)
+    (h : ∀ k, 1 ≤ k → k ≤ 16 → f k = none) : winner cfg f = cfg.default := by
+  have : firstFrom f 16 1 = none :=
+    (firstFrom_none_iff f 16 1).2 (fun j h1 h2 => h j h1 (by omega))
+  simp [winner, this]
+
+/-- conversely: the winner is one of the two -/
+theorem winner_cases (cfg : Cfg V) (f : Nat → Option V) :
+    (∃ j, 1 ≤ j ∧ j ≤ 16 ∧ f j = some (winner cfg f) ∧ ∀ k, 1 ≤ k → k < j → f k = none) ∨
+    ((∀ k, 1 ≤ k → k ≤ 16 → f k = none) ∧ winner cfg f = cfg.default) := by
+  cases h : firstFrom f 16 1 with
+  | some v =>
+    left
+    obtain ⟨j, h1, h2, h3, h4⟩ := (firstFrom_some_iff f 16 1 v).1 h
+    refine ⟨j, h1, by omega, ?_, h4⟩
+    simp [winner, h, h3]
+  | none =>
+    right
+    refine ⟨fun k h1 h2 => (firstFrom_none_iff f 16 1).1 h k h1 (by omega), ?_⟩
+    simp [winner, h]
+
+/-- a write above a non-null slot 6 cannot change the winner -/
+theorem winner_above_six (cfg : Cfg V) (f : Nat → Option V) (i : Nat) (x : Option V) (v : V)
+    (hi : 6 < i) (h6 : f 6 = some v) : winner cfg (setSlot f i x) = winner cfg f := by
+  have e1 : firstFrom (setSlot f i x) 6 1 = firstFrom f 6 1 :=
+    firstFrom_congr 6 1 (fun j h1 h2 => setSlot_other f x (by omega))
+  have hne : firstFrom f 6 1 ≠ none := by
+    intro h
+    have := (firstFrom_none_iff f 6 1).1 h 6 (by omega) (by omega)
+    rw [h6] at this; cases this
+  have a1 := firstFrom_append (setSlot f i x) 6 10 1
+  have a2 := firstFrom_append f 6 10 1
+  simp only [winner]
+  show (match firstFrom (setSlot f i x) (6 + 10) 1 with | some v => v | none => cfg.default) =
+       (match firstFrom f (6 + 10) 1 with | some v => v | none => cfg.default)
+  rw [a1, a2, e1]
+  cases h : firstFrom f 6 1 with
+  | some u => rfl
+  | none => exact absurd h hne
+
+/-- putting the winner itself into slot 6 does not change the winner: the
+    re-entrant write of `MinOnOffTask.present_value_change` never changes the
+    present value again -/
+theorem winner_set_six (cfg : Cfg V) (f : Nat → Option V) :
+    winner cfg (setSlot f 6 (some (winner cfg f))) = winner cfg f := by
+  have e1 : firstFrom (setSlot f 6 (some (winner cfg f))) 5 1 = firstFrom f 5 1 :=
+    firstFrom_congr 5 1 (fun j h1 h2 => setSlot_other f _ (by omega))
+  have a1 := firstFrom_append (setSlot f 6 (some (winner cfg f))) 5 11 1
+  have a2 := firstFrom_append f 5 11 1
+  have lhs : winner cfg (setSlot f 6 (some (winner cfg f))) =
+      (match firstFrom (setSlot f 6 (some (winner cfg f))) (5 + 11) 1 with
+       | some v => v | none => cfg.default) := rfl
+  rw [lhs, a1, e1]
+  cases h : firstFrom f 5 1 with
+  | some u =>
+    have : winner cfg f = u := by
+      show (match firstFrom f (5 + 11) 1 with | some v => v | none => cfg.default) = u
+      rw [a2, h]
+    simp [this]
+  | none =>
+    simp [firstFrom]
+
+/-! ## refused writes change nothing -/
+
+/-- every refusal happens before anything is touched -/
+theorem refused_unchanged (cfg : Cfg V) (n : Nat) (s : St V) (p : PropId) (v : Option V)
+    (ai pr : Option Int) (e : CErr) (h : target cfg p v ai pr = .error e) :
+    wp cfg (n + 1) s p v ai pr = (s, some e) := by
+  simp [wp, h]
+
+theorem target_bad_priority (cfg : Cfg V) (v : Option V) (ai : Option Int) (p : Int)
+    (h : p < 1 ∨ 16 < p) :
+    target cfg .presentValue v ai (some p) =
+      .error (if p = 0 then .writeAccessDenied else .invalidArrayIndex) := by
+  simp only [target, redirect]
+  by_cases h0 : p = 0
+  · simp [h0]
+  · have : p < 1 ∨ p > 16 := by omega
+    simp [h0, this]
+
+/-- **bad_priority_refused**: a presentValue write with a priority outside 1..16
+    raises and leaves the whole state unchanged -/
+theorem bad_priority_refused (cfg : Cfg V) (s : St V) (v : Option V) (ai : Option Int) (p : Int)
+    (h : p < 1 ∨ 16 < p) :
+    step cfg s (.write .presentValue v ai (some p)) =
+      (s, some (if p = 0 then .writeAccessDenied else .invalidArrayIndex)) := by
+  simp only [step, FUEL]
+  exact refused_unchanged cfg 7 s _ _ _ _ _ (target_bad_priority cfg v ai p h)
+
+/-- non-vacuity: priority 17 on a state with content -/
+example : (step (V := Nat) ⟨0, fun _ => none, false, 0, 1, 0, 0⟩
+            ⟨fun i => if i = 8 then some 5 else none, 5, 0, none⟩
+            (.write .presentValue (some 7) none (some 17))).2 = some .invalidArrayIndex := by decide
+
+/-- **slot 0**: `priorityArray[0]` (the length) is refused, nothing changes -/
+theorem slot_zero_refused (cfg : Cfg V) (s : St V) (v : Option V) (pr : Option Int) :
+    step cfg s (.write .priorityArray v (some 0) pr) = (s, some .writeAccessDenied) := by
+  simp only [step, FUEL]
+  exact refused_unchanged cfg 7 s _ _ _ _ _ (by simp [target, redirect])
+
+theorem bad_index_refused (cfg : Cfg V) (s : St V) (v : Option V) (pr : Option Int) (i : Int)
+    (h : i < 0 ∨ 16 < i) :
+    step cfg s (.write .priorityArray v (some i) pr) = (s, some .invalidArrayIndex) := by
+  simp only [step, FUEL]
+  refine refused_unchanged cfg 7 s _ _ _ _ _ ?_
+  have h0 : i ≠ 0 := by omega
+  have : i < 1 ∨ i > 16 := by omega
+  simp [target, redirect, h0, this]
+
+theorem whole_array_refused (cfg : Cfg V) (s : St V) (v : Option V) (pr : Option Int) :
+    step cfg s (.write .priorityArray v none pr) = (s, some .writeAccessDenied) := by
+  simp only [step, FUEL]
+  exact refused_unchanged cfg 7 s _ _ _ _ _ (by simp [target, redirect])
+
+/-- a value the datatype does not admit is refused before the slot is touched
+    (the behaviour after fixes/C17-slot-write-validate.patch) -/
+theorem bad_value_refused (cfg : Cfg V) (s : St V) (v : V) (ai : Option Int) (p : Int) (e : CErr)
+    (hp : 1 ≤ p ∧ p ≤ 16) (hv : cfg.check v = some e) :
+    step cfg s (.write .presentValue (some v) ai (some p)) = (s, some e) := by
+  simp only [step, FUEL]
+  refine refused_unchanged cfg 7 s _ _ _ _ _ ?_
+  have h0 : p ≠ 0 := by omega
+  have : ¬ (p < 1 ∨ p > 16) := by omega
+  simp [target, redirect, h0, this, checkValue, hv]
+
+/-- **no_priority_is_16** -/
+theorem no_priority_is_16 (cfg : Cfg V) (s : St V) (v : Option V) (ai : Option Int) :
+    step cfg s (.write .presentValue v ai none) = step cfg s (.write .presentValue v ai (some 16)) := by
+  simp [step, wp, FUEL, target, redirect]
+
+/-- an accepted presentValue command addresses exactly its priority -/
+theorem target_ok (cfg : Cfg V) (v : Option V) (ai : Option Int) (p : Int)
+    (hp : 1 ≤ p ∧ p ≤ 16) (hv : checkValue cfg v = none) :
+    target cfg .presentValue v ai (some p) = .ok p.toNat := by
+  have h0 : p ≠ 0 := by omega
+  have : ¬ (p < 1 ∨ p > 16) := by omega
+  simp [target, redirect, h0, this, hv]
+
+/-- whatever `target` accepts is one of the sixteen slots -/
+theorem target_range (cfg : Cfg V) (p : PropId) (v : Option V) (ai pr : Option Int) (i : Nat)
+    (h : target cfg p v ai pr = .ok i) : 1 ≤ i ∧ i ≤ 16 := by
+  unfold target at h
+  split at h <;> try (simp at h)
+  rename_i j _
+  by_cases h0 : j = 0
+  · simp [h0] at h
+  · by_cases h1 : j < 1 ∨ j > 16
+    · simp [h0, h1] at h
+    · simp [h0, h1] at h
+      split at h <;> simp at h
+      omega
+
+/-! ## the accepted write in closed form; the recursion never nests twice -/
+
+theorem target_six (cfg : Cfg V) (x : V) :
+    target cfg .presentValue (some x) none (some 6) =
+      match cfg.check x with
+      | some e => .error e
+      | none => .ok 6 := by
+  simp only [target, redirect, checkValue]
+  cases cfg.check x <;> simp
+
+/-- the re-entrant `WriteProperty("presentValue", new_value, priority=6)` made by the
+    monitor, on a state whose present value is already the winner: slot 6 is set
+    and nothing else happens (or the value check refuses) — no deeper call -/
+theorem wp_nested (cfg : Cfg V) (n : Nat) (s2 : St V) (hw : s2.present = winner cfg s2.slots) :
+    wp cfg (n + 1) s2 .presentValue (some s2.present) none (some 6) =
+      match cfg.check s2.present with
+      | some e => (s2, some e)
+      | none => ({ s2 with slots := setSlot s2.slots 6 (some s2.present) }, none) := by
+  have key : winner cfg (setSlot s2.slots 6 (some s2.present)) = s2.present := by
+    have := winner_set_six cfg s2.slots
+    rw [← hw] at this
+    exact this
+  simp only [wp, target_six]
+  cases cfg.check s2.present with
+  | some e => rfl
+  | none => simp [key]
+
+/-- what an accepted write (slot `i`, value or null) does — no recursion left -/
+def accept (cfg : Cfg V) (s : St V) (i : Nat) (value : Option V) : St V × Option CErr :=
+  let s1 : St V := { s with slots := setSlot s.slots i value }
+  let w := winner cfg s1.slots
+  if w = s1.present then (s1, none)
+  else
+    let s2 : St V := { s1 with present := w }
+    if cfg.minOnOff = false then (s2, none)
+    else
+      match holdDelay cfg w with
+      | none => (s2, some .valueError)
+      | some 0 => (s2, none)
+      | some (d + 1) =>
+        match cfg.check w with
+        | some e => (s2, some e)
+        | none =>
+          ({ s2 with slots := setSlot s2.slots 6 (some w),
+                     deadline := some (s2.now + 1000000 * (d + 1)) }, none)
+
+theorem wp_accept (cfg : Cfg V) (n : Nat) (s : St V) (p : PropId) (v : Option V)
+    (ai pr : Option Int) (i : Nat) (h : target cfg p v ai pr = .ok i) :
+    wp cfg (n + 2) s p v ai pr = accept cfg s i v := by
+  rw [wp]
+  simp only [h, accept]
+  by_cases hw : winner cfg (setSlot s.slots i v) = s.present
+  · simp [hw]
+  · have hw' : ¬ s.present = winner cfg (setSlot s.slots i v) := fun h => hw h.symm
+    simp only [hw, hw', if_false]
+    by_cases hm : cfg.minOnOff = false
+    · simp [hm]
+    · simp only [hm]
+      cases hd : holdDelay cfg (winner cfg (setSlot s.slots i v)) with
+      | none => rfl
+      | some d =>
+        cases d with
+        | zero => rfl
+        | succ d =>
+          simp only []
+          have := wp_nested cfg n
+            ({ s with slots := setSlot s.slots i v, present := winner cfg (setSlot s.slots i v) } : St V) rfl
+          simp only [] at this
+          rw [this]
+          cases cfg.check (winner cfg (setSlot s.slots i v)) with
+          | some e => rfl
+          | none => rfl
+
+/-- **the monitor's re-entrant call never nests deeper than once**: any recursion
+    depth ≥ 2 gives the same function -/
+theorem wp_fuel_irrelevant (cfg : Cfg V) (n : Nat) (s : St V) (p : PropId) (v : Option V)
+    (ai pr : Option Int) : wp cfg (n + 2) s p v ai pr = wp cfg 2 s p v ai pr := by
+  cases h : target cfg p v ai pr with
+  | error e => rw [refused_unchanged cfg (n + 1) s p v ai pr e h, refused_unchanged cfg 1 s p v ai pr e h]
+  | ok i => rw [wp_accept cfg n s p v ai pr i h, wp_accept cfg 0 s p v ai pr i h]
+
+theorem step_write (cfg : Cfg V) (s : St V) (p : PropId) (v : Option V) (ai pr : Option Int) :
+    step cfg s (.write p v ai pr) =
+      match target cfg p v ai pr with
+      | .error e => (s, some e)
+      | .ok i => accept cfg s i v := by
+  simp only [step, FUEL]
+  cases h : target cfg p v ai pr with
+  | error e => exact refused_unchanged cfg 7 s p v ai pr e h
+  | ok i => exact wp_accept cfg 6 s p v ai pr i h
+
+/-! ## present_is_winner -/
+
+/-- the property's first clause as a state predicate -/
+def Inv (cfg : Cfg V) (s : St V) : Prop := s.present = winner cfg s.slots
+
+/-- an accepted write ALWAYS ends with present value = winner (whatever the state before) -/
+theorem accept_inv (cfg : Cfg V) (s : St V) (i : Nat) (v : Option V) :
+    Inv cfg (accept cfg s i v).1 := by
+  unfold accept Inv
+  by_cases hw : winner cfg (setSlot s.slots i v) = s.present
+  · simp [hw]
+  · simp only [hw, if_false]
+    by_cases hm : cfg.minOnOff = false
+    · simp [hm]
+    · simp only [hm]
+      cases holdDelay cfg (winner cfg (setSlot s.slots i v)) with
+      | none => rfl
+      | some d =>
+        cases d with
+        | zero => rfl
+        | succ d =>
+          simp only []
+          cases cfg.check (winner cfg (setSlot s.slots i v)) with
+          | some e => rfl
+          | none => exact (winner_set_six cfg (setSlot s.slots i v)).symm
+
+theorem step_inv (cfg : Cfg V) (s : St V) (e : Event V) (h : Inv cfg s) :
+    Inv cfg (step cfg s e).1 := by
+  cases e with
+  | write p v ai pr =>
+    rw [step_write]
+    cases target cfg p v ai pr with
+    | error e => exact h
+    | ok i => exact accept_inv cfg s i v
+  | tick t =>
+    simp only [step]
+    cases hd : s.deadline with
+    | none => exact h
+    | some dl =>
+      simp only []
+      by_cases hdl : dl ≤ max s.now t
+      · simp only [hdl, if_true]
+        have := step_write cfg ({ s with now := max s.now t, deadline := none } : St V)
+          .presentValue none none (some 6)
+        simp only [step] at this
+        rw [this]
+        cases target cfg .presentValue (none : Option V) none (some 6) with
+        | error e => exact h
+        | ok i => exact accept_inv cfg _ i none
+      · simp only [hdl, if_false]; exact h
+
+/-- **present_is_winner**: after ANY event sequence (commands at any priority,
+    refused commands, array-index writes, clock ticks) the present value is the
+    value of the lowest-numbered non-null slot, or the default (`winner_lowest`,
+    `winner_default`, `winner_cases` say what `winner` is) -/
+theorem present_is_winner (cfg : Cfg V) (s : St V) (evs : List (Event V)) (h : Inv cfg s) :
+    (run cfg s evs).present = winner cfg (run cfg s evs).slots := by
+  induction evs generalizing s with
+  | nil => exact h
+  | cons e es ih => exact ih (step cfg s e).1 (step_inv cfg s e h)
+
+/-- a fresh object (sixteen nulls, present value = relinquish default) satisfies it -/
+theorem present_is_winner_init (cfg : Cfg V) (now : Nat) (evs : List (Event V)) :
+    (run cfg (init cfg.default now) evs).present =
+      winner cfg (run cfg (init cfg.default now) evs).slots :=
+  present_is_winner cfg _ evs (by
+    show cfg.default = winner cfg (fun _ => none)
+    exact (winner_default cfg _ (fun _ _ _ => rfl)).symm)
+
+/-- non-vacuity: a concrete history over five priorities, checked by evaluation -/
+example :
+    let cfg : Cfg Nat := ⟨9, fun _ => none, false, 0, 1, 0, 0⟩
+    let s := run cfg (init 9)
+      [command (some 5) (some 8), command (some 7) none, command (some 3) (some 2),
+       command none (some 2), command (some 4) (some 17), command none (some 8)]
+    s.present = 7 ∧ s.slots 16 = some 7 ∧ s.slots 8 = none := by decide
+
+/-! ## slot_holds_last and the refinement to "priority ↦ last command" -/
+
+/-- the slot an event commands and what it puts there, if it is an accepted write -/
+def cmdSlot (cfg : Cfg V) : Event V → Option (Nat × Option V)
+  | .write p v ai pr =>
+    match target cfg p v ai pr with
+    | .ok i => some (i, v)
+    | .error _ => none
+  | .tick _ => none
+
+/-- "the last value commanded at priority p" in a history; `none` = never commanded,
+    `some none` = last command was a relinquish -/
+def lastAt (cfg : Cfg V) (p : Nat) : List (Event V) → Option (Option V)
+  | [] => none
+  | e :: es =>
+    match lastAt cfg p es with
+    | some x => some x
+    | none =>
+      match cmdSlot cfg e with
+      | some (i, v) => if i = p then some v else none
+      | none => none
+
+theorem accept_slots_ne6 (cfg : Cfg V) (s : St V) (i : Nat) (v : Option V) (p : Nat) (hp : p ≠ 6) :
+    (accept cfg s i v).1.slots p = setSlot s.slots i v p := by
+  unfold accept
+  by_cases hw : winner cfg (setSlot s.slots i v) = s.present
+  · simp [hw]
+  · simp only [hw, if_false]
+    by_cases hm : cfg.minOnOff = false
+    · simp [hm]
+    · simp only [hm]
+      cases holdDelay cfg (winner cfg (setSlot s.slots i v)) with
+      | none => rfl
+      | some d =>
+        cases d with
+        | zero => rfl
+        | succ d =>
+          simp only []
+          cases cfg.check (winner cfg (setSlot s.slots i v)) with
+          | some e => rfl
+          | none => exact setSlot_other _ _ hp
+
+theorem target_fire (cfg : Cfg V) :
+    target cfg .presentValue (none : Option V) none (some 6) = .ok 6 := by
+  simp [target, redirect, checkValue]
+
+/-- what a tick does: nothing but moving the clock, or `process_task` -/
+theorem step_tick (cfg : Cfg V) (s : St V) (t : Nat) :
+    step cfg s (.tick t) =
+      match s.deadline with
+      | none => ({ s with now := max s.now t }, none)
+      | some dl =>
+        if dl ≤ max s.now t then
+          accept cfg { s with now := max s.now t, deadline := none } 6 none
+        else ({ s with now := max s.now t }, none) := by
+  simp only [step]
+  cases hd : s.deadline with
+  | none => rfl
+  | some dl =>
+    simp only []
+    by_cases hdl : dl ≤ max s.now t
+    · simp only [hdl, if_true]
+      have := step_write cfg ({ s with now := max s.now t, deadline := none } : St V)
+        .presentValue none none (some 6)
+      simp only [step, target_fire] at this
+      exact this
+    · simp only [hdl, if_false]
+
+theorem step_slots_ne6 (cfg : Cfg V) (s : St V) (e : Event V) (p : Nat) (hp : p ≠ 6) :
+    (step cfg s e).1.slots p =
+      match cmdSlot cfg e with
+      | some (i, v) => setSlot s.slots i v p
+      | none => s.slots p := by
+  cases e with
+  | write pr v ai prio =>
+    rw [step_write]
+    simp only [cmdSlot]
+    cases target cfg pr v ai prio with
+    | error e => rfl
+    | ok i => exact accept_slots_ne6 cfg s i v p hp
+  | tick t =>
+    rw [step_tick]
+    simp only [cmdSlot]
+    cases s.deadline with
+    | none => rfl
+    | some dl =>
+      simp only []
+      by_cases hdl : dl ≤ max s.now t
+      · simp only [hdl, if_true]
+        rw [accept_slots_ne6 cfg _ 6 none p hp]
+        exact setSlot_other _ _ hp
+      · simp only [hdl, if_false]
+
+/-- **slot_holds_last** (every slot except the one the min on/off mechanism owns):
+    after any history slot `p` holds exactly the last value commanded at `p` —
+    written without priority counts as 16 (`no_priority_is_16`), refused commands
+    do not count — or what it held before if `p` was never commanded -/
+theorem slot_holds_last (cfg : Cfg V) (s : St V) (evs : List (Event V)) (p : Nat) (hp : p ≠ 6) :
+    (run cfg s evs).slots p =
+      match lastAt cfg p evs with
+      | some x => x
+      | none => s.slots p := by
+  induction evs generalizing s with
+  | nil => rfl
+  | cons e es ih =>
+    show (run cfg (step cfg s e).1 es).slots p = _
+    rw [ih (step cfg s e).1]
+    simp only [lastAt]
+    cases lastAt cfg p es with
+    | some x => rfl
+    | none =>
+      simp only []
+      rw [step_slots_ne6 cfg s e p hp]
+      cases cmdSlot cfg e with
+      | none => rfl
+      | some iv =>
+        obtain ⟨i, v⟩ := iv
+        simp only []
+        by_cases hip : i = p
+        · simp [hip]
+        · have : p ≠ i := fun h => hip h.symm
+          simp [hip, setSlot_other _ _ this]
+
+/-- objects without the MinOnOff mix-in: an accepted write touches its slot only
+    and never arms a timer -/
+theorem accept_plain (cfg : Cfg V) (s : St V) (i : Nat) (v : Option V) (hm : cfg.minOnOff = false) :
+    (accept cfg s i v).1.slots = setSlot s.slots i v ∧
+    (accept cfg s i v).1.deadline = s.deadline ∧ (accept cfg s i v).2 = none := by
+  unfold accept
+  by_cases hw : winner cfg (setSlot s.slots i v) = s.present
+  · simp [hw]
+  · simp [hw, hm]
+
+theorem step_plain (cfg : Cfg V) (s : St V) (e : Event V) (hm : cfg.minOnOff = false)
+    (hd : s.deadline = none) :
+    (step cfg s e).1.slots =
+      (match cmdSlot cfg e with
+       | some (i, v) => setSlot s.slots i v
+       | none => s.slots) ∧ (step cfg s e).1.deadline = none := by
+  cases e with
+  | write pr v ai prio =>
+    rw [step_write]
+    simp only [cmdSlot]
+    cases target cfg pr v ai prio with
+    | error e => exact ⟨rfl, hd⟩
+    | ok i =>
+      have := accept_plain cfg s i v hm
+      exact ⟨this.1, by rw [this.2.1]; exact hd⟩
+  | tick t =>
+    rw [step_tick, hd]
+    exact ⟨rfl, rfl⟩
+
+/-- **slot_holds_last**, all sixteen slots, for the 18 classes without min on/off -/
+theorem slot_holds_last_all (cfg : Cfg V) (s : St V) (evs : List (Event V)) (p : Nat)
+    (hm : cfg.minOnOff = false) (hd : s.deadline = none) :
+    (run cfg s evs).slots p =
+      match lastAt cfg p evs with
+      | some x => x
+      | none => s.slots p := by
+  induction evs generalizing s with
+  | nil => rfl
+  | cons e es ih =>
+    have hs := step_plain cfg s e hm hd
+    show (run cfg (step cfg s e).1 es).slots p = _
+    rw [ih (step cfg s e).1 hs.2]
+    simp only [lastAt]
+    cases lastAt cfg p es with
+    | some x => rfl
+    | none =>
+      simp only []
+      rw [hs.1]
+      cases cmdSlot cfg e with
+      | none => rfl
+      | some iv =>
+        obtain ⟨i, v⟩ := iv
+        simp only []
+        by_cases hip : i = p
+        · simp [hip]
+        · have : p ≠ i := fun h => hip h.symm
+          simp [hip, setSlot_other _ _ this]
+
+/-- the abstract specification: a map priority ↦ last command, nothing else -/
+def absStep (cfg : Cfg V) (a : Nat → Option V) (e : Event V) : Nat → Option V :=
+  match cmdSlot cfg e with
+  | some (i, v) => setSlot a i v
+  | none => a
+
+def absRun (cfg : Cfg V) (a : Nat → Option V) (evs : List (Event V)) : Nat → Option V :=
+  evs.foldl (absStep cfg) a
+
+theorem absRun_at (cfg : Cfg V) (a : Nat → Option V) (evs : List (Event V)) (p : Nat) :
+    absRun cfg a evs p =
+      match lastAt cfg p evs with
+      | some x => x
+      | none => a p := by
+  induction evs generalizing a with
+  | nil => rfl
+  | cons e es ih =>
+    show absRun cfg (absStep cfg a e) es p = _
+    rw [ih (absStep cfg a e)]
+    simp only [lastAt]
+    cases lastAt cfg p es with
+    | some x => rfl
+    | none =>
+      simp only [absStep]
+      cases cmdSlot cfg e with
+      | none => rfl
+      | some iv =>
+        obtain ⟨i, v⟩ := iv
+        simp only []
+        by_cases hip : i = p
+        · simp [hip]
+        · have : p ≠ i := fun h => hip h.symm
+          simp [hip, setSlot_other _ _ this]
+
+/-- **refinement**: for an object without min on/off the concrete state is a
+    function of the abstract map: the slot array IS the map, and the present
+    value is its winner -/
+theorem refines_abstract (cfg : Cfg V) (s : St V) (evs : List (Event V))
+    (hm : cfg.minOnOff = false) (hd : s.deadline = none) (hi : Inv cfg s) :
+    (run cfg s evs).slots = absRun cfg s.slots evs ∧
+    (run cfg s evs).present = winner cfg (absRun cfg s.slots evs) := by
+  have hs : (run cfg s evs).slots = absRun cfg s.slots evs := by
+    funext p
+    rw [slot_holds_last_all cfg s evs p hm hd, absRun_at]
+  exact ⟨hs, by rw [← hs]; exact present_is_winner cfg s evs hi⟩
+
+/-- … and for the binary objects with min on/off it is one on every slot but 6,
+    with the present value still the winner of the concrete array -/
+theorem refines_abstract_minonoff (cfg : Cfg V) (s : St V) (evs : List (Event V)) (hi : Inv cfg s) :
+    (∀ p, p ≠ 6 → (run cfg s evs).slots p = absRun cfg s.slots evs p) ∧
+    (run cfg s evs).present = winner cfg (run cfg s evs).slots :=
+  ⟨fun p hp => by rw [slot_holds_last cfg s evs p hp, absRun_at], present_is_winner cfg s evs hi⟩
+
+/-- non-vacuity of `lastAt`: writes, a relinquish, a refused write and a write
+    without priority -/
+example :
+    let cfg : Cfg Nat := ⟨0, fun _ => none, false, 0, 1, 0, 0⟩
+    let evs := [command (some 5) (some 8), command (some 6) none, command none (some 8),
+                command (some 9) (some 0), command (some 7) (some 16)]
+    lastAt cfg 8 evs = some none ∧ lastAt cfg 16 evs = some (some 7) ∧ lastAt cfg 3 evs = none := by
+  decide
+
+/-! ## minimum on / off time: a timed invariant over the event sequence -/
+
+/-- **hold_starts**: on an object with the MinOnOff mix-in, a command that changes
+    the present value to a state `w` with a non-zero minimum time puts `w` into
+    slot 6 and arms the timer at `now + minimum time` -/
+theorem hold_starts (cfg : Cfg V) (s : St V) (i : Nat) (x : Option V) (d : Nat)
+    (hm : cfg.minOnOff = true)
+    (hchg : winner cfg (setSlot s.slots i x) ≠ s.present)
+    (hdel : holdDelay cfg (winner cfg (setSlot s.slots i x)) = some (d + 1))
+    (hc : cfg.check (winner cfg (setSlot s.slots i x)) = none) :
+    accept cfg s i x =
+      ({ slots := setSlot (setSlot s.slots i x) 6 (some (winner cfg (setSlot s.slots i x))),
+         present := winner cfg (setSlot s.slots i x),
+         now := s.now,
+         deadline := some (s.now + 1000000 * (d + 1)) }, none) := by
+  unfold accept
+  simp [hchg, hm, hdel, hc]
+
+/-- events that neither reach the timer's deadline nor command priority 1..6
+    (priorities 1..5 legitimately override the mechanism, 6 is its own slot) -/
+def quiet (cfg : Cfg V) (dl : Nat) : Event V → Prop
+  | .tick t => t < dl
+  | .write p v ai pr =>
+    match target cfg p v ai pr with
+    | .ok i => 6 < i
+    | .error _ => True
+
+theorem hold_step (cfg : Cfg V) (s : St V) (e : Event V) (v : V) (dl : Nat)
+    (hi : Inv cfg s) (h6 : s.slots 6 = some v) (hd : s.deadline = some dl) (hn : s.now < dl)
+    (hq : quiet cfg dl e) :
+    Inv cfg (step cfg s e).1 ∧ (step cfg s e).1.slots 6 = some v ∧
+    (step cfg s e).1.deadline = some dl ∧ (step cfg s e).1.now < dl ∧
+    (step cfg s e).1.present = s.present := by
+  cases e with
+  | write p x ai pr =>
+    rw [step_write]
+    simp only [quiet] at hq
+    cases ht : target cfg p x ai pr with
+    | error err => exact ⟨hi, h6, hd, hn, rfl⟩
+    | ok i =>
+      rw [ht] at hq
+      simp only [] at hq
+      have hw : winner cfg (setSlot s.slots i x) = s.present := by
+        rw [winner_above_six cfg s.slots i x v hq h6]; exact hi.symm
+      have hne : (6 : Nat) ≠ i := by omega
+      have : accept cfg s i x = ({ s with slots := setSlot s.slots i x }, none) := by
+        unfold accept; simp [hw]
+      dsimp only
+      rw [this]
+      refine ⟨?_, ?_, hd, hn, rfl⟩
+      · show s.present = winner cfg (setSlot s.slots i x)
+        exact hw.symm
+      · show setSlot s.slots i x 6 = some v
+        rw [setSlot_other _ _ hne]; exact h6
+  | tick t =>
+    simp only [quiet] at hq
+    have hlt : max s.now t < dl := by omega
+    have hnot : ¬ dl ≤ max s.now t := by omega
+    have : step cfg s (.tick t) = ({ s with now := max s.now t }, none) := by
+      rw [step_tick]; simp [hd, hnot]
+    rw [this]
+    exact ⟨hi, h6, hd, hlt, rfl⟩
+
+/-- **hold_persists** (the timed invariant): while the timer is armed for `dl`,
+    ANY sequence of events that stays before `dl` and below priority 6 leaves
+    slot 6, the timer and the present value exactly as they are -/
+theorem hold_persists (cfg : Cfg V) (s : St V) (evs : List (Event V)) (v : V) (dl : Nat)
+    (hi : Inv cfg s) (h6 : s.slots 6 = some v) (hd : s.deadline = some dl) (hn : s.now < dl)
+    (hq : ∀ e ∈ evs, quiet cfg dl e) :
+    (run cfg s evs).slots 6 = some v ∧ (run cfg s evs).deadline = some dl ∧
+    (run cfg s evs).present = s.present := by
+  induction evs generalizing s with
+  | nil => exact ⟨h6, hd, rfl⟩
+  | cons e es ih =>
+    obtain ⟨a, b, c, d, f⟩ := hold_step cfg s e v dl hi h6 hd hn (hq e (List.mem_cons_self))
+    have := ih (step cfg s e).1 a b c d (fun e' he' => hq e' (List.mem_cons_of_mem _ he'))
+    exact ⟨this.1, this.2.1, by rw [← f]; exact this.2.2⟩
+
+/-- **min_on_hold**: a command that turns a binary object *active* is followed by
+    `minimumOnTime` seconds during which — whatever is commanded at priorities
+    7..16, relinquished, refused, and however often the scheduler looks at the
+    clock — the object stays active with `active` in slot 6 -/
+theorem min_on_hold (cfg : Cfg V) (s : St V) (p : PropId) (x : Option V) (ai pr : Option Int)
+    (i d : Nat) (evs : List (Event V))
+    (hm : cfg.minOnOff = true) (hne : cfg.active ≠ cfg.inactive)
+    (hon : cfg.minOn = d + 1) (hc : cfg.check cfg.active = none)
+    (ht : target cfg p x ai pr = .ok i)
+    (hnew : winner cfg (setSlot s.slots i x) = cfg.active) (hold : s.present ≠ cfg.active)
+    (hq : ∀ e ∈ evs, quiet cfg (s.now + 1000000 * cfg.minOn) e) :
+    let s' := run cfg (step cfg s (.write p x ai pr)).1 evs
+    s'.present = cfg.active ∧ s'.slots 6 = some cfg.active ∧
+    s'.deadline = some (s.now + 1000000 * cfg.minOn) := by
+  have hdel : holdDelay cfg (winner cfg (setSlot s.slots i x)) = some (d + 1) := by
+    rw [hnew]; simp [holdDelay, hne, hon]
+  have hs := hold_starts cfg s i x d hm (by rw [hnew]; exact fun h => hold h.symm) hdel
+    (by rw [hnew]; exact hc)
+  have hstep : step cfg s (.write p x ai pr) = accept cfg s i x := by rw [step_write, ht]
+  intro s'
+  have hi1 : Inv cfg (step cfg s (.write p x ai pr)).1 := by rw [hstep]; exact accept_inv cfg s i x
+  rw [hon] at hq
+  have := hold_persists cfg (step cfg s (.write p x ai pr)).1 evs cfg.active
+    (s.now + 1000000 * (d + 1)) hi1
+    (by rw [hstep, hs]; simp [hnew])
+    (by rw [hstep, hs])
+    (by rw [hstep, hs]; show s.now < _; omega)
+    hq
+  refine ⟨?_, this.1, by rw [hon]; exact this.2.1⟩
+  show (run cfg (step cfg s (.write p x ai pr)).1 evs).present = cfg.active
+  rw [this.2.2, hstep, hs]
+  exact hnew
+
+/-- **min_off_hold**: the same for a new *inactive* state and `minimumOffTime` -/
+theorem min_off_hold (cfg : Cfg V) (s : St V) (p : PropId) (x : Option V) (ai pr : Option Int)
+    (i d : Nat) (evs : List (Event V))
+    (hm : cfg.minOnOff = true)
+    (hoff : cfg.minOff = d + 1) (hc : cfg.check cfg.inactive = none)
+    (ht : target cfg p x ai pr = .ok i)
+    (hnew : winner cfg (setSlot s.slots i x) = cfg.inactive) (hold : s.present ≠ cfg.inactive)
+    (hq : ∀ e ∈ evs, quiet cfg (s.now + 1000000 * cfg.minOff) e) :
+    let s' := run cfg (step cfg s (.write p x ai pr)).1 evs
+    s'.present = cfg.inactive ∧ s'.slots 6 = some cfg.inactive ∧
+    s'.deadline = some (s.now + 1000000 * cfg.minOff) := by
+  have hdel : holdDelay cfg (winner cfg (setSlot s.slots i x)) = some (d + 1) := by
+    rw [hnew]; simp [holdDelay, hoff]
+  have hs := hold_starts cfg s i x d hm (by rw [hnew]; exact fun h => hold h.symm) hdel
+    (by rw [hnew]; exact hc)
+  have hstep : step cfg s (.write p x ai pr) = accept cfg s i x := by rw [step_write, ht]
+  intro s'
+  have hi1 : Inv cfg (step cfg s (.write p x ai pr)).1 := by rw [hstep]; exact accept_inv cfg s i x
+  rw [hoff] at hq
+  have := hold_persists cfg (step cfg s (.write p x ai pr)).1 evs cfg.inactive
+    (s.now + 1000000 * (d + 1)) hi1
+    (by rw [hstep, hs]; simp [hnew])
+    (by rw [hstep, hs])
+    (by rw [hstep, hs]; show s.now < _; omega)
+    hq
+  refine ⟨?_, this.1, by rw [hoff]; exact this.2.1⟩
+  show (run cfg (step cfg s (.write p x ai pr)).1 evs).present = cfg.inactive
+  rw [this.2.2, hstep, hs]
+  exact hnew
+
+/-- **hold_released**: when the scheduler looks at the clock at or after the
+    deadline the slot is released; if that changes the present value to a state
+    with a minimum time of its own, that state is held in turn -/
+theorem hold_released (cfg : Cfg V) (s : St V) (t dl : Nat)
+    (hd : s.deadline = some dl) (hdl : dl ≤ max s.now t)
+    (hok : (step cfg s (.tick t)).2 = none) :
+    let s' := (step cfg s (.tick t)).1
+    (s'.slots 6 = none ∧ s'.deadline = none) ∨
+    (s'.present ≠ s.present ∧ s'.slots 6 = some s'.present ∧
+      ∃ d, holdDelay cfg s'.present = some (d + 1) ∧
+           s'.deadline = some (max s.now t + 1000000 * (d + 1))) := by
+  rw [step_tick, hd] at hok ⊢
+  simp only [hdl, if_true] at hok ⊢
+  unfold accept at hok ⊢
+  simp only [] at hok ⊢
+  by_cases hw : winner cfg (setSlot s.slots 6 none) = s.present
+  · left; simp [hw]
+  · simp only [hw, if_false] at hok ⊢
+    by_cases hm : cfg.minOnOff = false
+    · left; simp [hm]
+    · simp only [hm] at hok ⊢
+      cases hdel : holdDelay cfg (winner cfg (setSlot s.slots 6 none)) with
+      | none => rw [hdel] at hok; simp at hok
+      | some d =>
+        rw [hdel] at hok
+        cases d with
+        | zero => left; simp
+        | succ d =>
+          simp only [] at hok ⊢
+          cases hc : cfg.check (winner cfg (setSlot s.slots 6 none)) with
+          | some e => rw [hc] at hok; simp at hok
+          | none =>
+            right
+            refine ⟨hw, by simp, d, hdel, rfl⟩
+
+/-- non-vacuity (and the repaired direction of the two times): minimumOnTime 10 s,
+    minimumOffTime 3 s; an *active* command at priority 8 is held 10 s — still held
+    after a relinquish and 9.999999 s, released by the tick at 10 s, after which the
+    new inactive state is held for 3 s -/
+example :
+    let cfg : Cfg Nat := ⟨0, fun _ => none, true, 0, 1, 10, 3⟩
+    let s1 := run cfg (init 0) [command (some 1) (some 8), .tick 2000000, command none (some 8),
+                                .tick 9999999]
+    let s2 := run cfg s1 [.tick 10000000]
+    let s3 := run cfg s2 [.tick 12999999]
+    let s4 := run cfg s3 [.tick 13000000]
+    (s1.present = 1 ∧ s1.slots 6 = some 1 ∧ s1.deadline = some 10000000) ∧
+    (s2.present = 0 ∧ s2.slots 6 = some 0 ∧ s2.deadline = some 13000000) ∧
+    (s3.slots 6 = some 0) ∧ (s4.slots 6 = none ∧ s4.deadline = none ∧ s4.present = 0) := by
+  decide
+
+/-! ## the generated class table (kernel evaluation; re-run whenever the code changes it) -/
+
+open BacVerif.Gen.Commandable in
+/-- "look up a matching priority value choice": first element whose class the
+    datatype derives from, else constructedValue -/
+def computeChoice (names : List String) (sub : List Bool) : String :=
+  match (names.zip sub).find? (fun p => p.2) with
+  | some p => p.1
+  | none => "constructedValue"
+
+open BacVerif.Gen.Commandable in
+def classOK (c : CmdClass) : Bool :=
+  c.override && c.pvMutable && !c.paMutable && !c.rdMutable && (c.paType == "PriorityArray") &&
+  (c.sub.length == pvChoices.length) && (computeChoice pvChoices c.sub == c.pvChoice) &&
+  (c.pvChoice != "null") && pvChoices.contains c.pvChoice &&
+  (c.minOnOff == (c.datatype == "BinaryPV")) && (!c.enumerated || c.atomic)
+
+open BacVerif.Gen.Commandable in
+/-- every commandable class: `WriteProperty` resolves to the mix-in's override,
+    presentValue is writable while priorityArray / relinquishDefault are not (so
+    the whole-array write is refused and the default is constant), the
+    priority-value choice is the one the lookup rule gives and is not `null`, and
+    exactly the BinaryPV classes carry the MinOnOff mix-in -/
+theorem table_classes_ok : classes.all classOK = true := by decide +kernel
+
+open BacVerif.Gen.Commandable in
+/-- the twenty commandable classes of the property's quantifier, pairwise distinct -/
+theorem table_twenty : classes.length = 20 ∧ (classes.map (·.name)).Nodup := by decide +kernel
+
+open BacVerif.Gen.Commandable in
+/-- sixteen slots, all null in a fresh array -/
+theorem table_array : paLength = 16 ∧ paPrototypeNull = true := by decide +kernel
 
 end BacVerif.C17
